@@ -42,6 +42,8 @@ def run(repo, rep):
     rep.run_borrowed(_c10, {"C10-a": "C02-s"}, repo)
     rep.clause("C02-u", "what the registers describe is what was bounds-checked: kernel strides keep their axes on the way to NPU_SET_KERNEL_STRIDE [C10-c], the weight DMA starts at core 0's range [C08-l], the register elision compares with the value the hardware holds [C06-e]")
     rep.clause("C02-v", "address arithmetic of feature maps (functions interpreted): a NHCWB16 coordinate splits the channel into brick c // 16 and lane c % 16 for every element size; the storage shape of a rolling buffer is clipped to the buffer (min with the parameter), never grown")
+    rep.clause("C02-w", "a tensor gets the brick format only if every operator around it sees it with the tensor's own shape and no DMA copy touches it: both loops of _avoid_nhcwb16_for_shapes compare with the operator's view (ifm_shapes / ofm_shapes); the memory-only predicate holds for Op.Memcpy")
+    rule_nhcwb16_restrictions(repo, rep)
     rule_tensor_geometry(repo, rep)
     from . import c06 as _c06u
     from . import c08 as _c08u
@@ -1060,3 +1062,56 @@ def rule_tensor_geometry(repo, rep, rule="C02-v"):
     rep.check(wrong is None, rule, site + ".storage_shape_for_sub_purpose", f"rolling-buffer storage shapes are the full shape clipped to the buffer extent ({pts} cases)",
               (f"{wrong[0]}({wrong[1]}, {wrong[2]}) of a [1, 40, 24, 16] map: {wrong[3]}, expected {wrong[4]}: addresses no longer wrap at the buffer height while the live range reserves the buffer only: "
                "stripes are written behind the reserved rows") if wrong else "")
+
+
+def rule_nhcwb16_restrictions(repo, rep, rule="C02-w"):
+    """(w) a tensor gets the brick format only if every operator around it sees it with the tensor's own shape, and only if no DMA copy
+    (Op.Memcpy) touches it. _avoid_nhcwb16_for_shapes: each loop (consumers, producers) compares Shape4D(tens.shape) with the *operator's
+    view* (`<op>.ifm_shapes[k]` / `<op>.ofm_shapes[0]`, directly or through a local) - comparing with the tensor's own shape again is
+    vacuous, and a producer that writes through a larger view then overruns the storage sized from the tensor shape.
+    _avoid_nhcwb16_for_memory_only: its predicate is true for Op.Memcpy (folded with the tuples of the module)."""
+    m = repo.mod("graph_optimiser_util")
+    fn = m.func("_avoid_nhcwb16_for_shapes")
+    site = "ethosu/vela/graph_optimiser_util.py:_avoid_nhcwb16_for_shapes"
+    loops = [s for s in fn.body if isinstance(s, ast.For)]
+    roles = {}
+    for lp in loops:
+        it = str(norm(lp.iter))
+        role = "consumers" if it.endswith(".consumer_list") else ("producers" if it.endswith(".ops") else None)
+        if role is None:
+            continue
+        opv = lp.target.id if isinstance(lp.target, ast.Name) else None
+        local_views = {}
+        for st in ast.walk(lp):
+            if isinstance(st, ast.Assign) and isinstance(st.targets[0], ast.Name):
+                local_views.setdefault(st.targets[0].id, []).append(str(norm(st.value)))
+        cmps = [c for c in ast.walk(lp) if isinstance(c, ast.Compare) and isinstance(c.ops[0], (ast.NotEq, ast.Eq)) and "Shape4D(tens.shape)" in (str(norm(c.left)), str(norm(c.comparators[0])))]
+        ok, why = bool(cmps), "no comparison with Shape4D(tens.shape)"
+        want = r"^%s\.(ifm_shapes|ofm_shapes)\[\d\]$" % re.escape(opv or "?")
+        if role == "producers":
+            want = r"^%s\.ofm_shapes\[0\]$" % re.escape(opv or "?")
+        for c in cmps:
+            other = c.comparators[0] if str(norm(c.left)) == "Shape4D(tens.shape)" else c.left
+            texts = local_views.get(other.id, []) if isinstance(other, ast.Name) else [str(norm(other))]
+            if not texts or not all(re.match(want, t) for t in texts):
+                ok, why = False, f"compared with `{texts}`: not the operator's own view of the tensor ({'ofm_shapes[0]' if role == 'producers' else 'ifm_shapes[k]'}) - the test cannot see a reshaped view"
+        roles[role] = (ok, why, str(norm(cmps[0]))[:70] if cmps else "-")
+    for role in ("consumers", "producers"):
+        if role not in roles:
+            rep.bad(rule, site, f"the {role} of the tensor are compared", "no loop over them")
+        else:
+            rep.check(roles[role][0], rule, site, f"{role}: `{roles[role][2]}` compares the tensor shape with each operator's view", roles[role][1])
+    g = m.func("_avoid_nhcwb16_for_memory_only")
+    gsite = "ethosu/vela/graph_optimiser_util.py:_avoid_nhcwb16_for_memory_only"
+    cmps = [c for c in ast.walk(g) if isinstance(c, ast.Compare) and str(norm(c.left)).endswith(".type")]
+    ok = False
+    for c in cmps:
+        r = c.comparators[0]
+        if isinstance(c.ops[0], ast.Eq) and str(norm(r)) == "Op.Memcpy":
+            ok = True
+        if isinstance(c.ops[0], ast.In):
+            tup = r if isinstance(r, (ast.Tuple, ast.List, ast.Set)) else (m.assign(r.id) if isinstance(r, ast.Name) and r.id in m.assigns else None)
+            if isinstance(tup, (ast.Tuple, ast.List, ast.Set)) and any(str(norm(e)) == "Op.Memcpy" for e in tup.elts):
+                ok = True
+    rep.check(ok, rule, gsite, "the predicate is true for an operator of type Op.Memcpy", f"`{str(norm(cmps[0])) if cmps else None}` does not hold for Op.Memcpy: the source / destination of a DMA copy becomes NHCWB16 and the DMA moves the brick "
+              "volume (576 bytes) into a linear tensor of 368")
